@@ -197,7 +197,7 @@ func (descriptor *pmtDescriptor) DecodeIso639AudioType() byte {
 }
 
 func (descriptor *pmtDescriptor) IsTTMLDescTagExtension() bool {
-	return len(descriptor.data) >= 1 && uint8(descriptor.data[0]) == TTML_DESC_TAG_EXTENSION
+	return descriptor.tag == EXTENSION && len(descriptor.data) >= 1 && uint8(descriptor.data[0]) == TTML_DESC_TAG_EXTENSION
 }
 
 func (descriptor *pmtDescriptor) IsTTMLSubtitlingDescriptor() bool {
